@@ -2,6 +2,7 @@
    M <hex>      validateMediaType
    T <hex>      the created validation of pack.go (validateRFC3339) accepts
    L <hex>      time.Parse(time.RFC3339, _) alone succeeds (the lenient recogniser)
+   F y mo d h mi s   time.Date(..., UTC).Format(time.RFC3339) of a valid civil time (INVALID otherwise)
    J <hex>      json.Marshal of a string (escaping)      B <hex>   base64.StdEncoding of bytes
    U <hex>      a string after json.Marshal / Unmarshal (invalid UTF-8 coerced)
    K <fn> <exists> <key 0=full 1=digest 2=namespace 3=file> <failat|-> <at> <subject> <layers> <ann> <config> <config_ann> <store>
@@ -122,6 +123,11 @@ let () =
   iter_lines (fun l ->
     match split_ws l with
     | [id; "M"; h] -> Printf.printf "%s %s\n" id (if valid_media_type (str_of_hex h) then "1" else "0")
+    | [id; "F"; y; mo; d; h; mi; s] ->
+      let n x = n_of_int (int_of_string x) in
+      if civil_ok (n y) (n mo) (n d) (n h) (n mi) (n s)
+      then Printf.printf "%s %s\n" id (hex_of_str (format_rfc3339_utc (n y) (n mo) (n d) (n h) (n mi) (n s)))
+      else Printf.printf "%s INVALID\n" id
     | [id; "J"; h] -> Printf.printf "%s %s\n" id (hex_of_str (json_string (str_of_hex h)))
     | [id; "B"; h] -> Printf.printf "%s %s\n" id (hex_of_str (base64 (str_of_hex h)))
     | [id; "L"; h] -> Printf.printf "%s %s\n" id (if rfc3339_ok_prefix (str_of_hex h) then "1" else "0")
